@@ -245,7 +245,7 @@ class Report:
 
 # ---------------------------------------------------------------- generic correspondence
 
-def correspond(cases, race=False, timeout=1200):
+def correspond(cases, race=False, timeout=1200, canon=None):
     """cases: list of dicts with 'id' and 'line'.  Runs implementation and model.
     Returns (impl, model, disagreements[list of case])."""
     lines = [c["line"] for c in cases]
@@ -255,6 +255,8 @@ def correspond(cases, race=False, timeout=1200):
     for c in cases:
         i, m = impl.get(c["id"]), model.get(c["id"])
         c["impl"], c["model"] = i, m
+        if canon is not None and i is not None and m is not None:
+            i, m = canon(c, i), canon(c, m)
         if i is None or m is None or i != m:
             dis.append(c)
     return impl, model, dis
